@@ -24,6 +24,7 @@ UNIT_MODES = {
     'ops_arith_i': ['dbg', 'rel'],
     'ops_arith_u': ['dbg', 'rel'],
     'ops_core': ['dbg', 'rel'],
+    'numtraits_conv5': ['dbg', 'rel'],
     'floatcast': ['dbg', 'rel'],
 }
 
@@ -45,7 +46,7 @@ PROPS = {
     'C14': dict(units=['floatcast'], title='float casts'),
     'C17': dict(units=['ops_core', 'ops_arith_u', 'ops_arith_i', 'ops_shl_u', 'ops_shr_u', 'ops_shl_i', 'ops_shr_i', 'ops_misc'], title='operator traits agree with inherent methods'),
     'C18': dict(units=['numtraits_fwd', 'numtraits_int', 'numtraits_gcd', 'numtraits_roots'], title='num_traits / num_integer implementations'),
-    'C19': dict(units=['numtraits_conv', 'numtraits_conv2', 'numtraits_conv3', 'numtraits_conv4'], title='num_traits conversions'),
+    'C19': dict(units=['numtraits_conv', 'numtraits_conv2', 'numtraits_conv3', 'numtraits_conv4', 'numtraits_conv5'], title='num_traits conversions'),
     'C15': dict(units=['slices'], title='slices and endianness'),
     'C16': dict(units=['consts', 'core_add', 'addsub', 'mul', 'div', 'sdiv', 'cmp', 'cmp2', 'powlog', 'shift_val', 'shift_ops', 'parse', 'radixout', 'cast', 'xcast'],
                 title='digit-type independence (one overlay text proved for all digit types; cross-digit casts preserve value) and constants'),
